@@ -47,15 +47,20 @@ HOSTILE = [
 
 
 def hostile_history(rot=0):
+    from . import tracer
     rot %= len(HOSTILE)
-    for t in HOSTILE[rot:] + HOSTILE[:rot]:
-        try:
-            with warnings.catch_warnings():
-                warnings.simplefilter("ignore")
-                blackbird.loads(t)
-        except BaseException as e:      # noqa: BLE001
-            if isinstance(e, (KeyboardInterrupt, SystemExit)):
-                raise
+    was, tracer.PAUSED = tracer.PAUSED, True
+    try:
+        for t in HOSTILE[rot:] + HOSTILE[:rot]:
+            try:
+                with warnings.catch_warnings():
+                    warnings.simplefilter("ignore")
+                    blackbird.loads(t)
+            except BaseException as e:      # noqa: BLE001
+                if isinstance(e, (KeyboardInterrupt, SystemExit)):
+                    raise
+    finally:
+        tracer.PAUSED = was
 
 
 def wants_hostile(text):
